@@ -69,7 +69,148 @@ type observer struct {
 	next     int // rotation through the catalogue
 	perBlock int
 	bytesPer int // byte-level mutants per block
+	editsPer int // boundary variants on an edited copy of the state, per block
+	nextEdit int
 	err      error
+}
+
+// editVariant: a variant judged on an EDITED copy of the live state: validator X is put exactly at a
+// boundary of a status condition (is_slashable_validator, is_active_validator, exit already initiated, ...)
+// and an otherwise honest, correctly signed block carrying one operation about X is built on that state, so
+// that ONLY the status condition decides.  Whether the block is valid is decided by the model.
+type editVariant struct {
+	name, class string
+	minEpoch    common.Epoch
+	proposerX   bool // X is the proposer of the block's slot (the honest block itself is re-used)
+	edit        func(v common.Validator, cur common.Epoch) error
+	plan        func(x common.ValidatorIndex, cur common.Epoch) chain.BlockPlan
+}
+
+func setEpochs(v common.Validator, elig, act, exit, wd *common.Epoch) error {
+	if elig != nil {
+		if err := v.SetActivationEligibilityEpoch(*elig); err != nil {
+			return err
+		}
+	}
+	if act != nil {
+		if err := v.SetActivationEpoch(*act); err != nil {
+			return err
+		}
+	}
+	if exit != nil {
+		if err := v.SetExitEpoch(*exit); err != nil {
+			return err
+		}
+	}
+	if wd != nil {
+		return v.SetWithdrawableEpoch(*wd)
+	}
+	return nil
+}
+
+func ep(e common.Epoch) *common.Epoch { return &e }
+
+var far = common.FAR_FUTURE_EPOCH
+
+var (
+	planPSlash = func(x common.ValidatorIndex, cur common.Epoch) chain.BlockPlan {
+		return chain.BlockPlan{ProposerSlashings: []chain.ProposerSlashingPlan{{Proposer: x}}}
+	}
+	planASlash = func(x common.ValidatorIndex, cur common.Epoch) chain.BlockPlan {
+		return chain.BlockPlan{AttesterSlashings: []chain.AttesterSlashingPlan{{Indices: []common.ValidatorIndex{x}}}}
+	}
+	planExit = func(x common.ValidatorIndex, cur common.Epoch) chain.BlockPlan {
+		return chain.BlockPlan{Exits: []chain.ExitPlan{{Validator: x}}}
+	}
+	editWdNow    = func(v common.Validator, cur common.Epoch) error { return setEpochs(v, nil, nil, ep(cur-2), ep(cur)) }
+	editWdNext   = func(v common.Validator, cur common.Epoch) error { return setEpochs(v, nil, nil, ep(cur-1), ep(cur+1)) }
+	editActNext  = func(v common.Validator, cur common.Epoch) error { return setEpochs(v, ep(0), ep(cur+1), nil, nil) }
+	editActNow   = func(v common.Validator, cur common.Epoch) error { return setEpochs(v, ep(0), ep(cur), nil, nil) }
+	editPending  = func(v common.Validator, cur common.Epoch) error { return setEpochs(v, ep(far), ep(far), nil, nil) }
+	editExited   = func(v common.Validator, cur common.Epoch) error { return setEpochs(v, nil, nil, ep(cur-1), ep(cur+1)) }
+	editExiting  = func(v common.Validator, cur common.Epoch) error { return setEpochs(v, nil, nil, ep(cur+3), ep(cur+5)) }
+	editSlashedP = func(v common.Validator, cur common.Epoch) error {
+		if err := v.MakeSlashed(); err != nil {
+			return err
+		}
+		return setEpochs(v, nil, nil, ep(cur+3), ep(cur+8))
+	}
+)
+
+var editVariants = []editVariant{
+	{"pslash-withdrawable-now", "slashable_boundary", 2, false, editWdNow, planPSlash},
+	{"pslash-withdrawable-next-control", "slashable_boundary", 1, false, editWdNext, planPSlash},
+	{"pslash-activation-next", "slashable_boundary", 0, false, editActNext, planPSlash},
+	{"pslash-activation-now-control", "slashable_boundary", 1, false, editActNow, planPSlash},
+	{"aslash-withdrawable-now", "slashable_boundary", 2, false, editWdNow, planASlash},
+	{"aslash-withdrawable-next-control", "slashable_boundary", 1, false, editWdNext, planASlash},
+	{"aslash-activation-next", "slashable_boundary", 0, false, editActNext, planASlash},
+	{"aslash-activation-now-control", "slashable_boundary", 1, false, editActNow, planASlash},
+	{"exit-of-pending-validator", "exit_status", 0, false, editPending, planExit},
+	{"exit-of-future-activation", "exit_status", 0, false, editActNext, planExit},
+	{"exit-of-exited-validator", "exit_status", 1, false, editExited, planExit},
+	{"exit-already-initiated", "exit_status", 0, false, editExiting, planExit},
+	{"header-proposer-slashed", "header", 0, true, editSlashedP, nil},
+}
+
+// runEdited builds and runs one editVariant for the block env (about to be applied on c's head).
+func (o *observer) runEdited(c *chain.Chain, env *common.BeaconBlockEnvelope, ev editVariant) {
+	defer func() { recover() }() // a variant that cannot be built is skipped
+	spec := c.Spec
+	cur := spec.SlotToEpoch(env.Slot)
+	if cur < ev.minEpoch {
+		return
+	}
+	base := c.StateCtx.Copy(true)
+	base.CompensateSyncCache = false
+	// X: the block's proposer, or a healthy active validator that is not the proposer
+	var x common.ValidatorIndex
+	if ev.proposerX {
+		x = env.ProposerIndex
+	} else {
+		var cands []common.ValidatorIndex
+		for i, v := range base.Validators() {
+			if v.IsActive(cur) && cur > 0 && v.IsActive(cur-1) && v.ExitEpoch == far && !v.Slashed && common.ValidatorIndex(i) != env.ProposerIndex {
+				cands = append(cands, common.ValidatorIndex(i))
+			}
+		}
+		if len(cands) < int(spec.SLOTS_PER_EPOCH)+2 {
+			return
+		}
+		x = cands[o.rng.Intn(len(cands))]
+	}
+	vals, err := base.State.Validators()
+	if err != nil {
+		return
+	}
+	v, err := vals.Validator(x)
+	if err != nil || ev.edit(v, cur) != nil {
+		return
+	}
+	epc, err := common.NewEpochsContext(spec, base.State.BeaconState)
+	if err != nil {
+		return
+	}
+	base.Epc = epc
+	venv := env
+	if ev.plan != nil {
+		pre2 := base.Copy(true)
+		if pre2.Advance(env.Slot) != nil {
+			return
+		}
+		if p, err := pre2.Proposer(env.Slot); err != nil || p == x || pre2.Validator(p).Slashed {
+			return
+		}
+		plan := ev.plan(x, cur)
+		plan.Slot = env.Slot
+		venv, err = chain.ProduceOn(pre2, c.Deposits, plan)
+		if err != nil || venv == nil {
+			return
+		}
+	}
+	o.rec.NegBlockOn(c.Ctx, spec, base.Epc, base.State, venv, ev.name, ev.class)
+	fork := chain.ForkAtEpoch(spec, cur)
+	covered[ev.class+"_"+fork.String()]++
 }
 
 func (o *observer) BeforeSlots(c *chain.Chain, to common.Slot)           {}
@@ -118,6 +259,25 @@ func (o *observer) BeforeBlock(c *chain.Chain, env *common.BeaconBlockEnvelope) 
 		covered[v.Class+"_"+fork.String()]++
 		covered["v:"+v.Name+"_"+fork.String()]++
 		done++
+	}
+	// blocks with deposits are rare: run every deposit variant not yet seen on this fork in this process
+	if len(*chain.OpsOf(env.Body).Deposits) > 0 {
+		for _, v := range o.variants {
+			if v.Class != "deposit" || covered["v:"+v.Name+"_"+fork.String()] > 0 {
+				continue
+			}
+			if venv, err := v.Make(pre, c.Deposits, env); err == nil && venv != nil {
+				o.rec.NegBlock(c.Ctx, c.Spec, c.Epc, c.State, venv, v.Name, v.Class)
+				covered[v.Class+"_"+fork.String()]++
+				covered["v:"+v.Name+"_"+fork.String()]++
+			}
+		}
+	}
+	if env.Slot%c.Spec.SLOTS_PER_EPOCH != 0 {
+		for i := 0; i < o.editsPer; i++ {
+			o.runEdited(c, env, editVariants[o.nextEdit%len(editVariants)])
+			o.nextEdit++
+		}
 	}
 	for i := 0; i < o.bytesPer; i++ {
 		if venv := byteMutant(o.rng, pre, env); venv != nil {
@@ -196,7 +356,7 @@ func byteMutant(rng *rand.Rand, pre *chain.StateCtx, env *common.BeaconBlockEnve
 	return venv
 }
 
-func run(rec *beaconrec.Recorder, cf cfg, name string, rng *rand.Rand, perBlock, bytesPer int, rot int) error {
+func run(rec *beaconrec.Recorder, cf cfg, name string, rng *rand.Rand, perBlock, bytesPer, editsPer int, rot int) error {
 	spec := chain.NewSpec(cf.preset, cf.forks)
 	g := cf.genesis
 	g.Validators = cf.validators
@@ -220,7 +380,7 @@ func run(rec *beaconrec.Recorder, cf cfg, name string, rng *rand.Rand, perBlock,
 		}
 	}
 	c.Runner = rec
-	obs := &observer{rec: rec, rng: rng, variants: negvariants.All(), next: rot, perBlock: perBlock, bytesPer: bytesPer}
+	obs := &observer{rec: rec, rng: rng, variants: negvariants.All(), next: rot, nextEdit: rot, perBlock: perBlock, bytesPer: bytesPer, editsPer: editsPer}
 	c.Observer = obs
 	extra := []chain.KeyID{}
 	if err := rec.InitWithKeys(spec, c.State, map[string]interface{}{"scenario": name}, chainabs.KeyTable(c.Keys, 96, extra...)); err != nil {
@@ -275,7 +435,7 @@ func main() {
 	add := func(p string, f chain.ForkSchedule, epochs int) {
 		cfgs = append(cfgs, cfg{preset: p, forks: f, validators: chain.DefaultValidatorCount(p), epochs: epochs})
 	}
-	perBlock, bytesPer := 5, 1
+	perBlock, bytesPer, editsPer := 5, 1, 2
 	if *tier == "quick" {
 		add(chain.PresetS1, chain.Phase0Only, 14)
 		add(chain.PresetS1, F(2, X, X, X), 14)
@@ -290,7 +450,7 @@ func main() {
 		add(chain.PresetS4, F(0, 1, 2, 3), 20)
 		add(chain.PresetS1, F(0, 0, 0, 3), 14)
 	} else {
-		perBlock, bytesPer = 8, 2
+		perBlock, bytesPer, editsPer = 8, 2, 3
 		scheds := []chain.ForkSchedule{chain.Phase0Only, F(1, 2, 3, 4), F(2, 2, 2, 2), F(1, 3, 3, 6), F(2, X, X, X), F(1, 2, X, X),
 			F(1, 2, 4, X), F(0, 0, 0, 0), F(0, 1, 1, 2), F(0, 0, 2, 5), F(0, 0, 0, 3), F(3, 4, 5, 6)}
 		for rep := 0; rep < 2; rep++ {
@@ -304,6 +464,20 @@ func main() {
 				}
 			}
 		}
+	}
+	// short chains whose first blocks must carry deposits, one per fork (forks active from genesis): the deposit
+	// conditions are then exercised on every fork whatever the random scenarios do
+	for _, f := range []chain.ForkSchedule{chain.Phase0Only, F(0, X, X, X), F(0, 0, X, X), F(0, 0, 0, X), F(0, 0, 0, 0)} {
+		var pend []chain.DepositSpec
+		for k := 0; k < 6; k++ {
+			pend = append(pend, chain.DepositSpec{Key: chain.KeyID(16 + k), BadSignature: k == 3})
+		}
+		steps := []chain.StepPlan{}
+		for sl := 1; sl <= 6; sl++ {
+			steps = append(steps, chain.StepPlan{Slot: common.Slot(sl), Seed: int64(900 + sl)})
+		}
+		cfgs = append(cfgs, cfg{name: "deposits-at-genesis", preset: chain.PresetS1, forks: f, validators: 16,
+			genesis: chain.GenesisOpts{PendingDeposits: pend}, steps: steps})
 	}
 	for _, ns := range chain.CornerScenarios() {
 		g := ns.Genesis
@@ -360,7 +534,7 @@ func main() {
 			files = append(files, cur)
 		}
 		name := fmt.Sprintf("neg-%s-%s-%s-v%d", cf.name, cf.preset, schedName(cf.forks), cf.validators)
-		if err := run(rec, cf, name, rand.New(rand.NewSource(*seed*104729+int64(pos))), perBlock, bytesPer, pos*7+int(*seed)); err != nil {
+		if err := run(rec, cf, name, rand.New(rand.NewSource(*seed*104729+int64(pos))), perBlock, bytesPer, editsPer, pos*7+int(*seed)); err != nil {
 			fatal(fmt.Errorf("scenario %s: %w", name, err))
 		}
 		ran++
